@@ -55,7 +55,11 @@ ASSUMPTIONS = [
     "ts_per_hour != 0 and finite magnitudes (< 1e11 kW: the float bisection terminates by halving)",
 ]
 UNPROVED = [
-    "flex-band content (generate_flex_band / generate_individual_flex_band): correspondence/oracle only",
+    "flex-band content: generate_flex_band / generate_individual_flex_band are modelled (Model/FlexBand.lean, theorems "
+    "C13_flexband_*: content = base -/+ battery figure and the sums over the vehicles PRESENT, departed vehicles "
+    "contribute nothing, within rating, individual band follows limit events) and tied bit for bit in this stream; "
+    "the energy-need theorem is _partial (finding FB1: a departure estimate before the registration step makes the "
+    "need negative)",
     "get_event_steps / Strategy.step are modelled only for the two event kinds the schedule file "
     "produces (GridOperatorSignal target/window, VehicleEvent schedule); the other event kinds of a "
     "scenario do not write target/window/schedule (checked by the read-back on full scenarios)",
@@ -813,6 +817,14 @@ def eval_gen(case):
                 check_readback(viol, stats, rows, nv, seen, evs, rvids, events_mod, s.start_time, s.interval)
         except ValueError as ex:
             stats.append("readback_skipped_" + str(ex)[:20])
+    if not bad:
+        # the content of the flexibility band: the real generate_(individual_)flex_band vs its Lean model (Model/FlexBand.lean)
+        import s_flexband
+        fb_lines, fb_impl, _ = s_flexband.flex_lines(sc, case["cst"] or sc["scenario"].get("core_standing_time"),
+                                                     which=("individual",) if individual else ("collective",))
+        lines += fb_lines
+        impl += fb_impl
+        stats.append("flex_band_tied")
     return {"lines": lines, "impl": impl, "violations": viol, "nontrivial": nontrivial, "stats": stats}
 
 
